@@ -750,3 +750,42 @@ def translate_int_class(mod: ast.Module, clsname: str, dec: str, ns: str) -> str
                + lean_list([f'({lean_str(k)}, {lean_str(v)})' for k, v in sorted(aliases.items())]))
     out.append(f"end {ns}")
     return "\n".join(out) + "\n"
+
+
+# ---------------------------------------------------------------------------------------------------
+# `except` clauses: the classes caught, with named tuples of classes resolved
+# ---------------------------------------------------------------------------------------------------
+
+def exc_names_resolved(mod: ast.Module, cls: Optional[ast.ClassDef], node, depth: int = 0) -> List[str]:
+    """class names caught by `except <node>`; a name bound once at module or class level to a class or a tuple
+    of classes (`_ARITH_ERRORS = (ValueError, OverflowError)`) is expanded"""
+    import builtins
+    if node is None:
+        return ["BaseException"]
+    if depth > 4:
+        raise TranslationError("except clause: alias chain too deep")
+    if isinstance(node, ast.Tuple):
+        return [n for e in node.elts for n in exc_names_resolved(mod, cls, e, depth + 1)]
+    if isinstance(node, ast.BinOp) and isinstance(node.op, ast.Add):        # tuple concatenation
+        return exc_names_resolved(mod, cls, node.left, depth + 1) + exc_names_resolved(mod, cls, node.right, depth + 1)
+    name = None
+    scopes = []
+    if isinstance(node, ast.Name):
+        name = node.id
+        if isinstance(getattr(builtins, name, None), type) and issubclass(getattr(builtins, name), BaseException):
+            return [name]
+        scopes = [mod.body]
+    elif isinstance(node, ast.Attribute) and isinstance(node.value, ast.Name) and cls is not None \
+            and node.value.id in ("self", "cls", cls.name):
+        name = node.attr
+        scopes = [cls.body]
+    if name is not None:
+        for body in scopes:
+            found = [st for st in body if isinstance(st, (ast.Assign, ast.AnnAssign))
+                     and isinstance((st.targets[0] if isinstance(st, ast.Assign) else st.target), ast.Name)
+                     and (st.targets[0] if isinstance(st, ast.Assign) else st.target).id == name and st.value is not None]
+            if len(found) == 1:
+                return exc_names_resolved(mod, cls, found[0].value, depth + 1)
+            if len(found) > 1:
+                raise TranslationError(f"except clause: {name} is bound more than once")
+    return [ast.unparse(node)]
